@@ -5,6 +5,7 @@ package main
 // below is the contract between the three.
 
 import (
+	"fmt"
 	"os"
 	"path/filepath"
 	"sort"
@@ -426,6 +427,20 @@ func genXDir(r *Rand) string {
 					num = "0" + num
 				}
 				ents = append(ents, entry{k0.base + sep + num + k0.ext, 'f'})
+			}
+		}
+	}
+	if r.Chance(1, 8) {
+		// two keys whose basename + extension are the same text: shot<N>.comp.exr (basename
+		// "shot", extension ".comp.exr") next to shot.comp<N>.exr (basename "shot.comp")
+		b0, mid, e0 := r.Pick([]string{"shot", "a", "x_v2"}), r.Pick([]string{".comp", ".b", ".tar"}), r.Pick([]string{".exr", ".gz"})
+		if !used[b0+"|"+mid+e0] && !used[b0+mid+"|"+e0] {
+			used[b0+"|"+mid+e0] = true
+			used[b0+mid+"|"+e0] = true
+			w := r.Range(2, 4)
+			for j := 1; j <= 3; j++ {
+				ents = append(ents, entry{fmt.Sprintf("%s%0*d%s%s", b0, w, j, mid, e0), 'f'})
+				ents = append(ents, entry{fmt.Sprintf("%s%s%0*d%s", b0, mid, w, j+6, e0), 'f'})
 			}
 		}
 	}
